@@ -186,8 +186,87 @@ func c02Run(c *Ctx, ef int, vec []int) {
 	}
 }
 
+// long vectors asked in sequences on ONE enforcer: n in {65, 70, 130} rules whose flag is "1",
+// "2" or "0"; the requests "2", "1", "2", "1" are asked in turn, so that every call follows a call
+// with a different match vector (per-call state such as the effect / match arrays must not leak
+// from one request into the next).  For request x the vector is (flag == x, eft) per rule.
+func c02Long(c *Ctx) {
+	efts := []string{"allow", "other", "deny"}
+	letter := func(m bool, e string) string {
+		t := "0"
+		if m {
+			t = "1"
+		}
+		switch e {
+		case "allow":
+			return t + "a"
+		case "deny":
+			return t + "d"
+		}
+		return t + "i"
+	}
+	reps := 6
+	if c.Thorough() {
+		reps = 60
+	}
+	for ef := range c02Effects {
+		for _, n := range []int{65, 70, 130} {
+			for k := 0; k < reps; k++ {
+				rules := make([][]string, n)
+				dens := 1 + c.Rng.Intn(12) // sparse to dense
+				for i := range rules {
+					flag := "0"
+					if c.Rng.Intn(14) < dens {
+						flag = []string{"1", "2"}[c.Rng.Intn(2)]
+					}
+					rules[i] = []string{fmt.Sprintf("r%d", i), flag, efts[c.Rng.Intn(3)]}
+				}
+				e, err := casbin.NewEnforcer(c02Model(c02Effects[ef].expr))
+				if err != nil {
+					panic(err)
+				}
+				for _, r := range rules {
+					_, _ = e.AddPolicy(r)
+				}
+				for step, x := range []string{"2", "1", "2", "1"} {
+					tags := make([]string, n)
+					for i, r := range rules {
+						tags[i] = letter(r[1] == x, r[2])
+					}
+					id := fmt.Sprintf("c02long.%s.%d.%d.%d", c02Effects[ef].tag, n, k, step)
+					c.Case(id, c02Effects[ef].tag+" "+strings.Join(tags, ""))
+					c.NonTrivial(id)
+					var d1, d2 bool
+					var err1, err2 error
+					var ex []string
+					if step%2 == 0 {
+						d1, err1 = e.Enforce(x)
+						d2, ex, err2 = e.EnforceEx(x)
+					} else {
+						d2, ex, err2 = e.EnforceEx(x)
+						d1, err1 = e.Enforce(x)
+					}
+					exi := -1
+					if len(ex) > 0 {
+						exi = -2
+						for i, r := range rules {
+							if len(ex) == 3 && r[0] == ex[0] && r[1] == ex[1] && r[2] == ex[2] {
+								exi = i
+							}
+						}
+					}
+					c.Obs(id, "enforce", fmt.Sprintf("dec=%s err=%s", B(d1), B(err1 != nil)))
+					c.Obs(id, "enforceex", fmt.Sprintf("dec=%s err=%s ex=%d", B(d2), B(err2 != nil), exi))
+				}
+				c.Count(fmt.Sprintf("long.n=%d", n))
+			}
+		}
+	}
+}
+
 func init() {
 	register("C02", func(c *Ctx) {
+		c02Long(c)
 		maxN := 5
 		if c.Thorough() {
 			maxN = 7
